@@ -457,7 +457,9 @@ def oracle_copy_arguments(inp):
 
         @staticmethod
         def copyfile(*a, **k):
-            calls.append((a, k)); return a[1] if len(a) > 1 else k.get('dst')
+            import inspect
+            b = inspect.signature(shutil.copyfile).bind(*a, **k); b.apply_defaults()
+            calls.append(b.arguments); return b.arguments['dst']
     old = F.shutil
     F.shutil = Stub()
     try:
@@ -467,8 +469,7 @@ def oracle_copy_arguments(inp):
     want = (os.path.expanduser(inp['src']), os.path.expanduser(inp['dst']), inp['follow_symlinks'])
     got = None
     if len(calls) == 1:
-        a, k = calls[0]
-        got = (a[0] if len(a) > 0 else k.get('src'), a[1] if len(a) > 1 else k.get('dst'), a[2] if len(a) > 2 else k.get('follow_symlinks', True))
+        got = (calls[0]['src'], calls[0]['dst'], calls[0]['follow_symlinks'])
     return [('copyfile_called_with_source_and_destination', got == want, list(want), list(got) if got else 'calls: %d' % len(calls))]
 
 
@@ -837,8 +838,14 @@ def b2_layout(ctx):
     got = {}
     orig = odak.tools.save_image
 
-    def rec(fn, img, **k):
-        got['a'] = np.array(img); return True
+    import inspect
+    sig = inspect.signature(orig)
+
+    def rec(*a, **k):
+        # the caller may forward positionally or by keyword: bind to the real function's parameter names
+        b = sig.bind(*a, **k); b.apply_defaults()
+        got['a'] = np.array(b.arguments['img']); got['args'] = {n: v for n, v in b.arguments.items() if n not in ('fn', 'img')}
+        return True
     tshapes = [(a, b, c) for a in range(1, 7) for b in range(1, 7) for c in range(1, 7)]
     if not ctx.thorough:
         tshapes = [s for s in tshapes if rng.random() < 0.5 or min(s) <= 2 or 3 in s]
@@ -852,6 +859,8 @@ def b2_layout(ctx):
             try:
                 LT.save_image('unused.png', t, cmin=0, cmax=255)
                 a = got.get('a')
+                if a is not None and (got['args'].get('cmin'), got['args'].get('cmax'), got['args'].get('color_depth')) != (0, 255, 8):
+                    a = None                                  # range / depth not forwarded to the NumPy saver
             except Exception as e:
                 a = None
             s3 = shp[-3:]
